@@ -351,7 +351,8 @@ class GroupedList(list):
 
         # replacing in the dict
         self.content.update({group_member: self.content[group_leader][:]})
-        self.content.pop(group_leader)
+        if not is_equal(group_leader, group_member):
+            self.content.pop(group_leader)
 
         # sorting things up
         self.sort_by(self)
